@@ -313,3 +313,20 @@ Proof. reflexivity. Qed.
 Example ex_app_accepts_gate :
   app_sites_ok [("do_*", "path", AEither ASan (ASuffix ASan))] [mkASite "get.py" "do_GET" "discover" RPath 1 (AParam "do_*" "path")] = true.
 Proof. reflexivity. Qed.
+
+(* ================================================================= the static web pages (httputils / radicale/web) *)
+Lemma Gen_c06_web_sites_ok : sites_ok C06Sites.web_calls C06Sites.web_sites = true.
+Proof. vm_compute. reflexivity. Qed.
+
+(* every component joined onto the packaged web folder is a literal safe component or passed
+   is_safe_filesystem_path_component unchanged (so it does not begin with "." -- in particular it is not "..") *)
+Theorem c06_web_sites_confined : forall s, In s C06Sites.web_sites ->
+  forall c, den C06Sites.web_calls (s_prov s) (VC c) ->
+  is_safe_path_component (snd c) = true /\ (fst c = true -> is_safe_filesystem_path_component (snd c) = true).
+Proof. intros s Hs c D. exact (sites_ok_sound _ _ Gen_c06_web_sites_ok s Hs _ D). Qed.
+
+Theorem c06_web_sites_paths_confined : forall s, In s C06Sites.web_sites ->
+  forall root cs, den C06Sites.web_calls (s_prov s) (VP cs) -> lexically_inside root (fs_render root cs).
+Proof.
+  intros s Hs root cs D. apply good_inside. exact (sites_ok_sound _ _ Gen_c06_web_sites_ok s Hs _ D).
+Qed.
